@@ -617,6 +617,10 @@ func (wr *Writer) appendStruct(rv reflect.Value, depth int, si *sinfo) {
 }
 
 func (wr *Writer) appendSlice(rv reflect.Value, depth int, si *sinfo) {
+	if b, ok := rv.Interface().([]byte); ok { // follow the BytesAs option
+		wr.appendJSON(b, depth)
+		return
+	}
 	end := rv.Len()
 	if end == 0 {
 		wr.buf = append(wr.buf, "[]"...)
